@@ -33,7 +33,8 @@ pub struct Comp {
 }
 
 #[derive(Clone, Debug)]
-pub enum Item { Text(String), Comp(Comp) }
+pub enum Item { Text(String), Comp(Comp), /// a line break directly between two components: spelled as a newline, read as one space
+    SoftBreak }
 
 #[derive(Clone, Debug)]
 pub enum Block { Step(Vec<Item>), Text(Vec<String>), Meta(String, String), Section(Option<String>) }
@@ -45,7 +46,7 @@ const NAMES: &[&str] = &["flour", "salt", "olive oil", "Crème fraîche", "ñame
 const WORDS: &[&str] = &["Mix", "the", "and", "then", "add", "until", "golden", "slowly", "with", "a", "into", "stir", "well", "é", "ok"];
 const UNITS: &[&str] = &["g", "kg", "ml", "l", "cups", "tsp", "pinch", "cloves", "oz"];
 const TIME_UNITS: &[&str] = &["min", "minutes", "h", "hours", "s", "minute"];
-const TEXT_VALS: &[&str] = &["a pinch", "some", "to taste", "a few"];
+const TEXT_VALS: &[&str] = &["a pinch", "some", "to taste", "a few", "2 heaped", "1 large", "3 or so"];
 const NOTES: &[&str] = &["chopped", "room temperature", "finely diced é"];
 
 fn num(rng: &mut Rng, extended: bool) -> Num {
@@ -106,6 +107,7 @@ pub fn generate(rng: &mut Rng, extended: bool) -> WfRecipe {
                         t.push(' ');
                         items.push(Item::Text(t));
                     } else {
+                        if matches!(items.last(), Some(Item::Comp(_))) && rng.chance(1, 3) { items.push(Item::SoftBreak); }
                         let c = component(rng, extended, &mut defs, steps_in_section, sections_done);
                         items.push(Item::Comp(c));
                     }
@@ -187,7 +189,10 @@ fn component(rng: &mut Rng, extended: bool, defs: &mut Defs, steps_before: u32, 
             let alias = if extended && rng.chance(1, 8) { Some(rng.pick_str(&["AP", "the good stuff", "é"]).to_string()) } else { None };
             let qty = if rng.chance(2, 3) {
                 let val = value(rng, extended, true);
-                let unit = if rng.chance(2, 3) { Some(rng.pick_str(UNITS).to_string()) } else { None };
+                // a text value that starts with a number is core syntax only when a `%unit` follows: without the `%`
+                // ADVANCED_UNITS documents it as number + unit
+                let number_led = matches!(&val, Val::Text(t) if t.starts_with(|c: char| c.is_ascii_digit()));
+                let unit = if number_led || rng.chance(2, 3) { Some(rng.pick_str(UNITS).to_string()) } else { None };
                 let lock = extended && !matches!(val, Val::Text(_)) && rng.chance(1, 8);
                 Some(Qty { val, unit, lock })
             } else { None };
@@ -303,6 +308,7 @@ pub fn spell(r: &WfRecipe, st: &Style) -> String {
                             }
                         }
                         Item::Comp(c) => out.push_str(&spell_comp(c, &mut rng, st, r.extended)),
+                        Item::SoftBreak => out.push('\n'),
                     }
                 }
                 if st.comments && rng.chance(1, 5) { out.push_str("-- trailing"); }
@@ -359,6 +365,7 @@ pub fn expected(r: &WfRecipe) -> String {
                 for it in items {
                     match it {
                         Item::Text(t) => its.push(format!("t:{}", cps(t))),
+                        Item::SoftBreak => its.push(format!("t:{}", cps(" "))),
                         Item::Comp(c) => match c.kind {
                             Kind::Timer => {
                                 let q = c.qty.as_ref().map(|q| format!("{}%{}", r_sval(q, false), opt(q.unit.as_ref().map(|u| cps(u)))));
